@@ -45,7 +45,7 @@ func init() {
 	suites["db"] = func() suite {
 		return &dbSuite{profile: dbProfile}
 	}
-	for _, p := range []string{"kv", "structs", "mixed", "merge", "iso"} {
+	for _, p := range []string{"kv", "structs", "mixed", "merge", "iso", "list", "set", "zset"} {
 		p := p
 		suites["db-"+p] = func() suite { return &dbSuite{profile: p} }
 	}
@@ -532,7 +532,8 @@ func (s *dbSuite) genKey(r *rand.Rand, b string) []byte {
 	case 3:
 		k = []byte(fmt.Sprintf("a%c%c", 'a'+r.Intn(3), 'a'+r.Intn(3)))
 	case 4:
-		k = append([]byte("a"), byte(0xf0+r.Intn(16)))
+		// keys around the 0xff boundary (prefix upper bounds, carries)
+		k = [][]byte{{0x61, 0xff}, {0x61, 0xff, 0x62}, {0xff}, {0xff, 0xff}, {0x61, 0xfe}, {0x61, 0xff, 0xff}, {0x62}, {0x61, 0xff, 0x00}}[r.Intn(8)]
 	default:
 		s.nkeys++
 		k = []byte(fmt.Sprintf("k%02d", r.Intn(90)))
@@ -665,6 +666,12 @@ func (s *dbSuite) genOp(r *rand.Rand, dead bool) string {
 	} else if kind == "structs" {
 		kind = []string{"list", "set", "zset"}[r.Intn(3)]
 	}
+	if s.profile == "list" || s.profile == "set" || s.profile == "zset" {
+		kind = s.profile
+		if r.Intn(15) == 0 {
+			kind = []string{"kv", "list", "set", "zset"}[r.Intn(4)]
+		}
+	}
 	b = s.kindBucket(r, kind)
 	hb = hx([]byte(b))
 	switch kind {
@@ -685,8 +692,11 @@ func (s *dbSuite) genOp(r *rand.Rand, dead bool) string {
 			return fmt.Sprintf("range %s %s %s %d", hb, hx(k), hx(k2), now)
 		case 11, 12:
 			pre := k
-			if len(pre) > 0 && r.Intn(3) != 0 {
+			if len(pre) > 0 && r.Intn(2) == 0 {
 				pre = pre[:r.Intn(len(pre))]
+			}
+			if r.Intn(8) == 0 {
+				pre = [][]byte{{0x61, 0xff}, {0xff}, {0x61}, {}}[r.Intn(4)]
 			}
 			n := len(s.usedKeys[b])
 			lim := r.Intn(n+2) + 1
@@ -775,11 +785,11 @@ func (s *dbSuite) genOp(r *rand.Rand, dead bool) string {
 		}
 		n := 0
 		s.peek(dead, func(t *nutsdb.Tx) { n, _ = t.ZCard(b) })
-		sc := r.Intn(9) - 4 // quarter units: many ties
+		sc := r.Intn(5) - 2 // quarter units: many ties
 		sc2 := r.Intn(13) - 6
 		sc3 := r.Intn(13) - 6
-		switch r.Intn(20) {
-		case 0, 1, 2, 3, 4:
+		switch r.Intn(22) {
+		case 0, 1, 2, 3, 4, 20, 21:
 			f := float64(sc) / 4
 			return fmt.Sprintf("zadd %s %s %d %s %s %d", hb, hx(k), sc, hx([]byte(strconv.FormatFloat(f, 'f', -1, 64))), hx(pickVal(r)), now)
 		case 5:
